@@ -56,6 +56,10 @@ Obj::Obj(int i, Obj* nxt) : id(i), next(nxt) { Host h; C.constructed[i]++; C.nex
 Obj::~Obj() { Host h; C.destroyed[id]++; if (C.destroyed[id] > 1) failSoft("C09/ptr/destroyed_twice", "object %d destroyed %d times", id, C.destroyed[id]); }
 
 typedef RefCount::Ptr<Obj> P;
+/* handles to an interface: the pointee type is not the counted base and does not sit at offset 0 of the object */
+struct Iface { int tag; int probeValue() const { return tag; } };
+struct ObjMI : public RefCount::Object, public Iface { int id; String payload; ObjMI(int i) : id(i), payload("owned by the object", 19) { tag = 7000 + i; Host h; C.constructed[i]++; } ~ObjMI() { Host h; C.destroyed[id]++; if (C.destroyed[id] > 1) failSoft("C09/ptr/destroyed_twice", "object %d destroyed %d times", id, C.destroyed[id]); } };
+typedef RefCount::Ptr<Iface> PI;
 static inline String& S(char* p) { return *(String*)p; }
 static inline Variant& V(char* p) { return *(Variant*)p; }
 static inline Xml::Variant& X(char* p) { return *(Xml::Variant*)p; }
@@ -250,7 +254,17 @@ static void mutate(int w, int j, uint64_t kind, uint64_t param) {
     break; }
   case F_PTR: {
     P& q = PT(p);
-    switch (kind % 6) {
+    switch (kind % 7) {
+    case 6: { /* an episode with interface handles: created from the concrete object, copied, assigned, all dropped by destruction or by assignment */
+      int id; { Host h; id = C.nobj < MAXOBJ ? C.nobj++ : -1; } if (id < 0) break;
+      probe("interface_handle_episode");
+      { PI a(new ObjMI(id)); PI b(a); PI c; c = b;
+        if (a->probeValue() != 7000 + id || c->probeValue() != 7000 + id) fail("C09/ptr/value_changed", "interface handle no longer reaches object %d", id);
+        if (param % 3 == 0) { a = PI(); b = PI(); }            /* last handle dies by destruction of c */
+        else if (param % 3 == 1) { c = PI(); a = PI(); }       /* ... of b */
+        { bool gone; { Host h; gone = C.destroyed[id] != 0; } if (gone) fail("C09/ptr/destroyed_while_referenced", "object %d was destroyed while an interface handle still refers to it", id); } }
+      { bool once; { Host h; once = C.destroyed[id] == 1; } if (!once) fail("C09/ptr/destructor_count", "object %d (used through interface handles) was destroyed %d times after its last handle had gone", id, C.destroyed[id]); }
+      break; }
     case 5: { // advance along the chain in handle form: q = q->next (the right-hand handle lives inside the object being released)
       int nxt = -1; if (m.t == Val::OBJ) { Host h; nxt = C.nextId[m.i]; }
       if (nxt >= 0) { q = q->next; m.i = nxt; probe("chain_advanced_handle_form"); }
